@@ -233,3 +233,8 @@ pub use util::he_standard_params;
 pub use serialize::{Serializable, SerializableWithHeContext, PolynomialSerializer};
 pub use shortcut::*;
 pub mod perf_utils;
+
+// Verification hook (add-only): compiled only under `cargo kani` or `--cfg heathcliff_verif`.
+#[cfg(any(kani, heathcliff_verif))]
+#[path = "/verif/incrate/lib_v.rs"]
+pub(crate) mod verif_v;
